@@ -643,30 +643,50 @@ func (ex *Exec) sortSlice(fr *Frame, st *State, args []Val, call *ssa.Call, stab
 		return one(nil)
 	}
 	sl, ok := iv.V.(*SliceV)
+	var termVar *Obj // the local variable holding a term-valued slice (sorted in place through it)
+	var termVal *Term
 	if !ok {
 		if t, isT := iv.V.(*Term); isT && isSliceSort(t.Sort) {
-			// sorting a slice value that is not backed by an object we can update
-			var stk []string
-			for _, f := range ex.callStack {
-				stk = append(stk, f.Name())
+			// a slice value built by append: find the variable it was loaded from (sort.Slice(v, ...) with v a local)
+			if call != nil && len(call.Call.Args) > 0 {
+				var x ssa.Value = call.Call.Args[0]
+				if mi, isMI := x.(*ssa.MakeInterface); isMI {
+					x = mi.X
+				}
+				if u, isU := x.(*ssa.UnOp); isU && u.Op == token.MUL {
+					if p, isP := ex.val(fr, u.X, st).(*PtrV); isP && len(p.Path) == 0 {
+						termVar, termVal = p.Obj, t
+					}
+				}
 			}
-			ex.unsupp("sort.Slice on a slice term (no backing object) in %s via %v (spec=%d rec=%d)", ex.fnPrefix, stk, ex.specMode, len(ex.recorders))
+			if termVar == nil {
+				var stk []string
+				for _, f := range ex.callStack {
+					stk = append(stk, f.Name())
+				}
+				ex.unsupp("sort.Slice on a slice term (no backing object) in %s via %v (spec=%d rec=%d)", ex.fnPrefix, stk, ex.specMode, len(ex.recorders))
+				return one(nil)
+			}
+		} else {
+			return one(nil)
 		}
-		return one(nil)
 	}
 	less, ok := args[1].(*FuncV)
 	if !ok || less.Fn == nil {
 		ex.unsupp("sort.Slice with unknown comparator")
 		return one(nil)
 	}
-	oldArr := ex.content(st, sl.Obj).(*Term)
+	var oldArr, n, off *Term
+	if termVar != nil {
+		oldArr, n, off = SlArr(termVal), SlLen(termVal), IntLit(0)
+	} else {
+		oldArr, n, off = ex.content(st, sl.Obj).(*Term), sl.Len, sl.Off
+	}
 	lessId := Var("fn:"+less.Fn.String(), SInt)
-	newArr := Det("sorted", oldArr.Sort, oldArr, sl.Off, sl.Len, lessId)
-	n := sl.Len
-	off := sl.Off
+	newArr := Det("sorted", oldArr.Sort, oldArr, off, n, lessId)
 	// permutation: bijection pi on [0,n)
-	pi := DetName("perm", oldArr, sl.Off, sl.Len, lessId)
-	pinv := DetName("perminv", oldArr, sl.Off, sl.Len, lessId)
+	pi := DetName("perm", oldArr, off, n, lessId)
+	pinv := DetName("perminv", oldArr, off, n, lessId)
 	DeclareUF(pi, []*Sort{SInt}, SInt)
 	DeclareUF(pinv, []*Sort{SInt}, SInt)
 	i := BVar("i!so", SInt)
@@ -677,7 +697,11 @@ func (ex *Exec) sortSlice(fr *Frame, st *State, args []Val, call *ssa.Call, stab
 	st.AssumeDef(Forall([]*Term{i}, Implies(inR(i), And(inR(App(pinv, i)), Eq(App(pi, App(pinv, i)), i))), []*Term{App(pinv, i)}))
 	// outside the sorted window nothing changes
 	st.AssumeDef(Forall([]*Term{i}, Implies(Not(inR(Sub(i, off))), Eq(Select(newArr, i), Select(oldArr, i))), []*Term{Select(newArr, i)}))
-	st.heap[sl.Obj.id] = newArr
+	if termVar != nil {
+		st.heap[termVar.id] = MkSlNil(newArr.Sort.Elem, newArr, n, SlIsNil(termVal))
+	} else {
+		st.heap[sl.Obj.id] = newArr
+	}
 	// sortedness: for i<j, !less(j,i) — less is evaluated on the new content
 	lt := ex.callPureB(less.Fn, []Val{j, i}, less.Bindings, st)
 	if b, ok := lt.(*Term); ok && b.Sort == SBool {
